@@ -168,7 +168,7 @@ def tree_hash(paths):
     return h.hexdigest()[:16]
 
 
-BASE_FLAGS = ["-std=c++17", "-O1", "-g", "-fsanitize=address,undefined", "-fno-sanitize-recover=all",
+BASE_FLAGS = ["-std=c++17", "-O1", "-g", "-D_GLIBCXX_ASSERTIONS", "-fsanitize=address,undefined", "-fno-sanitize-recover=all",
               "-fno-sanitize=alignment", "-DYAKUSHIMA_LINUX", "-DYAKUSHIMA_VERIF"]
 
 
